@@ -126,3 +126,53 @@ Proof.
   destruct (ri (libref d) =? 0); [constructor|].
   rewrite map_map. cbn [sid seg_of]. apply (nodup_filter_keys (stalled_pred blocks b0)) in Hnd. exact Hnd.
 Qed.
+
+(* ---------- the cursor LIB carried by Undo / New events ---------- *)
+
+Lemma call_cursor cfg s : cursor_lib (fst (call cfg s)) = cursor_lib s.
+Proof. reflexivity. Qed.
+
+Lemma pbl_elib cfg cur st junc count : forall blocks idx s acc s' evs' ok,
+  process_blocks_loop cfg cur st junc count idx blocks s acc = (s', evs', ok) ->
+  exists evs, evs' = acc ++ evs /\ Forall (fun e => elib e = cursor_lib s) evs.
+Proof.
+  induction blocks as [|e rest IH]; intros idx s acc s' evs' ok H; cbn [process_blocks_loop] in H.
+  - injection H as <- <- <-. exists []. rewrite app_nil_r. split; [reflexivity | constructor].
+  - pose proof (call_cursor cfg s) as Hc. destruct (call cfg s) as [s1 ok1]. cbn [fst] in Hc.
+    set (ev := mkEv st (eb e) (bref (eb e)) (bref cur) (cursor_lib s) (if matches_undo st then junc else None) idx count) in *.
+    destruct ok1.
+    + apply IH in H. destruct H as (evs & -> & Hall). exists (ev :: evs). split; [rewrite <- app_assoc; reflexivity|].
+      constructor; [reflexivity|]. rewrite Hc in Hall. exact Hall.
+    + injection H as <- <- <-. exists [ev]. split; [reflexivity|]. constructor; [reflexivity | constructor].
+Qed.
+
+Lemma pb_elib cfg cur blocks st junc s s' evs ok :
+  process_blocks cfg cur blocks st junc s = (s', evs, ok) -> Forall (fun e => elib e = cursor_lib s) evs.
+Proof. unfold process_blocks. intros H. apply pbl_elib in H. destruct H as (evs0 & -> & Hall). exact Hall. Qed.
+
+Lemma pnl_elib cfg head : forall chain s acc s' evs' ok,
+  process_new_loop cfg head chain s acc = (s', evs', ok) ->
+  exists evs, evs' = acc ++ evs /\ Forall (fun e => elib e = cursor_lib s) evs.
+Proof.
+  induction chain as [|b rest IH]; intros s acc s' evs' ok H; cbn [process_new_loop] in H.
+  - injection H as <- <- <-. exists []. rewrite app_nil_r. split; [reflexivity | constructor].
+  - destruct (esent (sent b)); [apply IH in H; exact H|].
+    destruct (f_new (c_filter cfg)).
+    + pose proof (call_cursor cfg s) as Hc. destruct (call cfg s) as [s1 ok1]. cbn [fst] in Hc.
+      set (ev := mkEv SNew (eb (sent b)) (seg_ref b) head (cursor_lib s) None 0 0) in *.
+      destruct ok1.
+      * apply IH in H. destruct H as (evs & -> & Hall). exists (ev :: evs). split; [rewrite <- app_assoc; reflexivity|].
+        constructor; [reflexivity|]. unfold cursor_lib in *. cbn [last_lib_seen db libref] in Hall.
+        rewrite Hc in Hall. exact Hall.
+      * injection H as <- <- <-. exists [ev]. split; [reflexivity|]. constructor; [reflexivity | constructor].
+    + apply IH in H. destruct H as (evs & -> & Hall). exists evs. split; [reflexivity|].
+      unfold cursor_lib in *. cbn [last_lib_seen db libref] in Hall. exact Hall.
+Qed.
+
+Lemma pnb_elib cfg chain s s' evs ok :
+  process_new_blocks cfg chain s = (s', evs, ok) -> Forall (fun e => elib e = cursor_lib s) evs.
+Proof.
+  unfold process_new_blocks. destruct chain as [|b0 rest]; intros H.
+  - injection H as <- <- <-. constructor.
+  - apply pnl_elib in H. destruct H as (evs0 & -> & Hall). exact Hall.
+Qed.
